@@ -351,6 +351,15 @@ class EdSim(core.Engine):
         if closure is None and missing is None:
             res.skipped = 'precondition_world_unparseable'
             return []
+        if missing is not None:
+            # the editor may meet the files in another order than the reference walk: if any file of the world
+            # does not parse, its parse error may legitimately come before the report of the missing include
+            for pth, raw in before.items():
+                try:
+                    include_patterns(raw.decode('utf-8'))
+                except Exception:
+                    res.skipped = 'precondition_world_unparseable'
+                    return []
         if not recursive:
             try:
                 parser().parse(before[entry_abs].decode('utf-8'), models.File)
